@@ -369,11 +369,9 @@ func (s *Writer) prepareIntroducePersist(persists chan *persistIntroduction, new
 	case persists <- persist:
 	}
 
-	select {
-	case <-s.closeCh:
-		return segment.ErrClosed
-	case <-persist.applied:
-	}
+	// the introducer has taken the introduction and is bound to apply it: from
+	// here on it owns the segments, so do not race with it on close
+	<-persist.applied
 
 	return nil
 }
